@@ -450,6 +450,61 @@ def fam_infer_dtype(chk, da):
     del CALLS[:]
 
 
+def fam_from_array_options(chk, da):
+    """from_array over recording non-NumPy sources with every option that changes how blocks are fetched (inline_array, lock,
+    asarray, getitem, fancy), then slices / rechunks; constructing, inspecting, optimizing AND building the task graph (without
+    executing it) must not request a non-empty selection"""
+    import random as _random
+    import threading
+    rng = _random.Random(f"C29-from-array-options-{chk.seed}")
+    for it in range(600 if chk.tier == "thorough" else 90):
+        log = []
+        shape = (rng.choice([6, 10]), rng.choice([4, 9]))
+        data = np.arange(int(np.prod(shape)), dtype="int64").reshape(shape)
+        src = RecordingSource(data, log, 0)
+        chunks = (rng.choice([shape[0], 3, 5]), rng.choice([shape[1], 2, 3]))
+        kw = {}
+        if rng.random() < 0.5:
+            kw["inline_array"] = rng.random() < 0.7
+        if rng.random() < 0.3:
+            kw["lock"] = rng.choice([True, False]) if rng.random() < 0.7 else threading.Lock()
+        if rng.random() < 0.3:
+            kw["asarray"] = rng.choice([True, False])
+        if rng.random() < 0.2:
+            kw["fancy"] = rng.choice([True, False])
+        post = rng.choice(["none", "slice", "slice-int", "rechunk", "elem"])
+        try:
+            with warnings.catch_warnings():
+                warnings.simplefilter("ignore")
+                x = da.from_array(src, chunks=chunks, **kw)
+                if post == "slice":
+                    x = x[1:, ::2]
+                elif post == "slice-int":
+                    x = x[2, 1:]
+                elif post == "rechunk":
+                    x = x.rechunk((2, 2))
+                elif post == "elem":
+                    x = x + 1
+                inspect_everything(x)
+                before_graph = [e for e in log if e[3] > 0]
+                dict(x.__dask_graph__())                 # building the graph is not executing it
+                dict(x.optimize().__dask_graph__())
+        except Exception as e:  # noqa: BLE001
+            chk.count("from-array-options:skipped:" + type(e).__name__)
+            continue
+        desc = {"program": f"from_array(<recording source {shape}>, chunks={chunks}, {', '.join(f'{k}={v!r}' for k, v in kw.items() if k != 'lock') + (', lock=...' if 'lock' in kw else '')}) then {post}"}
+        chk.case(("from-array-options", shape, chunks, repr(sorted((k, repr(v)[:12]) for k, v in kw.items())), post), nontrivial=True, sample=desc if it < 2 else None)
+        chk.count("from-array-options:" + "+".join(sorted(kw)) if kw else "from-array-options:default")
+        touched = [e for e in log if e[3] > 0]
+        if touched:
+            chk.violation(f"a source was read while only {'inspecting' if before_graph else 'building the task graph'}: {touched[0][0]}{touched[0][2]} "
+                          f"({touched[0][3]} elements), {len(touched)} request(s)", {**desc, "requests": [t[:4] for t in touched[:4]]},
+                          signature={"class": "source-read", "how": touched[0][0], "phase": "inspection" if before_graph else "graph-build",
+                                     "inline_array": bool(kw.get("inline_array"))})
+        else:
+            chk.traces_validated += 1
+
+
 def fam_user_function_apis(chk, da):
     """every public entry point that takes a USER FUNCTION, called with all the metadata it could ask for (dtype / meta / shape /
     chunks / output_dtypes given explicitly): building and inspecting the result must not call the function on real elements"""
@@ -544,6 +599,7 @@ def run(chk: Check):
     chk.run_proofs()
     fam_meta_model(chk, da)
     fam_user_function_apis(chk, da)
+    fam_from_array_options(chk, da)
     rng = chk.rng
     # corpus: F31 0-d source
     log0 = []
